@@ -145,8 +145,13 @@ def add_nearmiss(rng, case, p=0.40):
         return
     k = int(rng.integers(10, 51))
     sign = 1 if rng.random() < 0.5 else -1
-    via = ['lam', 'f', 'grid', 'grid-axis'][int(rng.integers(0, 4))]
-    if via == 'lam':
+    via = ['lam', 'f', 'grid', 'grid-axis', 'zero'][int(rng.integers(0, 5 if fo['kind'] == 'conj' else 4))]
+    if via == 'zero':
+        # commensurate spacing, the zero 2^-k samples off the (shifted) native position: still a native FFT grid, with that shift
+        k = int(rng.integers(10, 34))
+        e = sign * 2.0 ** -k
+        fo['nudge'] = [[e, 0.0], [0.0, e], [e, e], [e, -e]][int(rng.integers(0, 4))]
+    elif via == 'lam':
         lam = _perturbed(fo['lam'], sign, k)
         if lam in case['lams']:
             return
@@ -264,6 +269,9 @@ def directed():
                   'focal': {'kind': 'conj', 'M': [12, 10], 'f': 2.0, 'lam': 0.5, 'crop': [0, 0], 'shift': [0, 0], 'reversed': True},
                   'wf': 'scalar-stokes', 'stokes': [1.0, 0.0, 0.5, 0.0], 'fseed': 14, 'amp': [-33]})
     # near-miss class: design-wavelength FFT focal grids re-used slightly off (wavelength, focal length, grid scale)
+    cases.append({'pupil': dict(sq), 'lams': [0.5], 'f': {'kind': 'const', 'a': 2.0},
+                  'focal': {'kind': 'conj', 'M': [24, 24], 'f': 2.0, 'lam': 0.5, 'crop': [2, 0], 'shift': [0, 1], 'nudge': [2.0 ** -24, -2.0 ** -24]},
+                  'wf': 'scalar', 'stokes': None, 'fseed': 16, 'nearmiss': {'via': 'zero', 'k': 24, 'sign': 1}})
     for k_, via in ((18, 'lam'), (22, 'f'), (26, 'grid'), (30, 'grid-axis'), (14, 'lam'), (40, 'f')):
         e_ = 1.0 + 2.0 ** -k_
         c = {'pupil': dict(asym if k_ % 4 else sq), 'lams': [0.5], 'f': {'kind': 'const', 'a': 2.0},
@@ -349,7 +357,7 @@ def _build_focal(case, pupil_grid):
             M = fo['M'][i]
             d = lf / (Fraction(case['pupil']['delta'][i]) * M)
             n = M - fo['crop'][i]
-            z = -d * (n // 2) + d * Fraction(fo['shift'][i], 2)
+            z = -d * (n // 2) + d * Fraction(fo['shift'][i], 2) + d * Fraction(fo.get('nudge', [0, 0])[i])
             delta.append(d); dims.append(n); zero.append(z)
         g = hcipy.CartesianGrid(hcipy.RegularCoords(np.array([float(d) for d in delta]), np.array(dims), np.array([float(z) for z in zero])))
         return g, (delta, dims, zero)
@@ -567,6 +575,19 @@ def oracle_case(case, observe=None):
             lb.append(('input-intact', 'forward modified its input wavefront'))
         full = is_full_conjugate(pupil_grid, focal_grid, lam, f)
         rec = {'lam': lam, 'f': f, 'full': full, 'err': err, 'd4': d4}
+        nud = case['focal'].get('nudge')
+        if nud and any(nud) and not any(case['focal'].get('shift', [0, 0])):
+            # exact predicate of finding `fft-small-shift-dropped` (D303): FastFourierTransform skips the phase ramp of a non-zero
+            # output-grid shift when np.allclose(shift, 0), i.e. |shift| <= 1e-8 on every axis in uv units
+            try:
+                inst_ = prop.get_instance_data(pupil_grid, None, lam)
+                if type(inst_.fourier_transform).__name__ == 'FastFourierTransform':
+                    sh_ = [abs(n_ * float(d_)) for n_, d_ in zip(nud, inst_.uv_grid.delta)]
+                    if all(v_ <= 1e-8 for v_ in sh_):
+                        rec['shift_dropped'] = sh_
+                        lb = [('fft-small-shift-dropped ' + k_, w_ + ' [output-grid shift %r <= 1e-8 in uv units]' % (sh_,)) for k_, w_ in lb]
+            except Exception:
+                pass
         if collision:
             rec['wkey_collision'] = wkeys[wk]
             lb = [('wavelength-key-collision ' + k_, w_ + ' [served by the cached instance of wavelength %r]' % wkeys[wk]) for k_, w_ in lb]
@@ -959,6 +980,12 @@ def compare_model(ctx, case, obs, plan, answers):
             if kind == 'setup':
                 ctx.boundary_skipped += 1
                 ctx.count('skipped:wavelength-key-collision')
+            continue
+        if rec is not None and rec.get('shift_dropped') is not None and kind in ('lens', 'obj', 'impulse'):
+            # values of an FFT whose small shift the code drops (finding D303): the oracle reports it, nothing to tie
+            if kind == 'lens':
+                ctx.boundary_skipped += 1
+            ctx.count('skipped:%s-on-fft-small-shift-dropped(D303)' % kind)
             continue
         if kind == 'obj':
             if cur_grid_ok or not item[9]:
@@ -1495,6 +1522,8 @@ def run(ctx):
                     continue
                 if rec.get('wkey_collision') is not None:
                     ctx.count('wavelength-key-collision err%s1e-9' % ('<=' if rec['err'] <= TOL else '>'))
+                if rec.get('shift_dropped') is not None:
+                    ctx.count('fft-small-shift-dropped(D303) err%s1e-9' % ('<=' if rec['err'] <= TOL else '>'))
                 ctx.count('ft:' + rec['ft'])
                 ctx.count('full-conjugate' if rec['full'] else 'not-full')
             ctx.count('pupil:' + ('square' if case['pupil']['dims'][0] == case['pupil']['dims'][1] else 'non-square'))
